@@ -214,3 +214,77 @@ def checks(tier):
                bounds="every 64-bit st_dev/st_ino/st_uid/st_gid/st_size, ctime below 2^62 ns (no failure); mtime from 9 boundary values of the seconds/nanoseconds split (a symbolic mtime needs a uniqueness-of-division argument the bit-blaster does not find reliably)", outside="float times",
                tiers=q),
     ]
+
+
+# ---------------------------------------------------------------------------------------------
+# (e) the trailing checksum detects damage; unknown extensions survive
+import os as _os
+import shutil as _shutil
+from vf.interpose import scratch as _scratch
+
+_b11 = checks
+
+
+def _mkindex(path, version, ext):
+    from dulwich.index import Index, IndexEntry
+    idx = Index(path, read=False, version=version)
+    for i, name in enumerate([b"a", b"dir/b", b"dir/c\xff"]):
+        idx[name] = IndexEntry(ctime=(10 + i, 1), mtime=(20 + i, 2), dev=1, ino=2, mode=0o100644, uid=3, gid=4, size=5 + i,
+                               sha=b"%02x" % (i + 1) * 20, flags=0, extended_flags=0)
+    idx.write()
+    if ext:
+        # append an unknown (optional, upper-case) extension before the trailer, as git would
+        import hashlib
+        import struct
+        with open(path, "rb") as f:
+            data = f.read()
+        body = data[:-20] + b"ZZZZ" + struct.pack(">I", 3) + b"xyz"
+        with open(path, "wb") as f:
+            f.write(body + hashlib.sha1(body).digest())
+
+
+def h_trailer(eng, version=2):
+    """an index file with one damaged byte (symbolic offset and mask, anywhere before the trailer or inside it) is
+    rejected on read, whether or not the reader was opened with skip_hash; an undamaged one reads back"""
+    from dulwich.index import Index
+    d = _scratch("c11e")
+    try:
+        path = _os.path.join(d, "index")
+        ext = bool(eng.bool("unknown_extension"))
+        _mkindex(path, version, ext)
+        with open(path, "rb") as f:
+            data = bytearray(f.read())
+        skip = bool(eng.bool("reader_skip_hash"))
+        if eng.bool("damage"):
+            pos = eng.choice("offset", len(data))
+            data[pos] ^= [0x01, 0x80, 0xFF][eng.choice("mask", 3)]
+            with open(path, "wb") as f:
+                f.write(data)
+            try:
+                idx = Index(path, skip_hash=skip)
+                names = list(idx)
+            except Exception:
+                return
+            eng.fail(f"index v{version} with byte {pos} of {len(data)} damaged was accepted (skip_hash={skip}, entries {names})")
+        else:
+            idx = Index(path, skip_hash=skip)
+            eng.prove(list(idx) == [b"a", b"dir/b", b"dir/c\xff"], "undamaged index reads back")
+            if ext:
+                idx.write()
+                with open(path, "rb") as f:
+                    eng.prove(b"ZZZZ" in f.read(), "an unknown extension survives read + write")
+    finally:
+        _shutil.rmtree(d, ignore_errors=True)
+
+
+def checks(tier):
+    q = ("quick", "thorough")
+    ix = "dulwich.index."
+    return _b11(tier) + [
+        KCheck("C11e.trailer", h_trailer, parts=[{"version": v} for v in (2, 3, 4)],
+               encoded=[ix + "Index.read/write", ix + "read_index_dict_with_version", "dulwich.pack.SHA1Reader.check_sha/SHA1Writer"],
+               bounds="a 3-entry index (versions 2,3,4), optionally with an unknown extension; one byte XOR 01/80/FF at any offset "
+                      "(symbolic), reader opened with and without skip_hash",
+               outside="multi-byte damage that preserves SHA-1 (not constructible); files whose trailer is all zero (skipHash writers)",
+               tiers=q),
+    ]
